@@ -10,12 +10,17 @@
    POINTER bits of the first word of the chunk — which is the node's [left] link — with the
    old pool head and keeps that word's tag bits (tagged_ptr::set_ptr); allocate() pops the
    head and follows that pointer; an empty pool hands out a fresh zeroed chunk.  alloc_node
-   then constructs node(nullptr, nullptr, v, 0, 0): both link tags restart at 0 (this is
-   what makes F15 possible).  The freelist's own CAS loops are not split (its pop and its
-   push are one step each); every access of deque.hpp to the anchor or to a link is one step:
+   (repaired, `fix:` commit cf77ab7) reads the two link tags the chunk still holds and constructs
+   node(nullptr, nullptr, v, ltag + 1, rtag + 1); the pushes' private store writes
+   (neighbour, old tag of that link + 1).  (Before the repair both wrote tag 0, which made F15
+   possible: a stalled link CAS succeeded against a later incarnation of the node.)  So the tag
+   of a link never decreases over the lifetime of its address.  The freelist's own CAS loops
+   are not split (its pop and its push are one step each); every access of deque.hpp to the
+   anchor or to a link is one step (the tag read + the write of INIT / LSTORE are one step:
+   they touch a node that only the pushing thread may write):
 
      kind 1 ALLOC   pool_.allocate()                     kind 6 LSTORE  n->left/right.store
-     kind 2 INIT    new (chunk) node(0,0,v,0,0)          kind 7 LCAS    prev->link CAS (stabilize)
+     kind 2 INIT    new (chunk) node(0,0,v,lt+1,rt+1)    kind 7 LCAS    prev->link CAS (stabilize)
      kind 3 ALOAD   anchor_.lrs()                        kind 8 ACAS    anchor_.cas
      kind 4 ACHK    anchor_ != lrs                       kind 9 FREE    r = node->data; dealloc_node
      kind 5 LLOAD   ->left/right.load
@@ -25,8 +30,9 @@
    node seen from an end).  Tags are unbounded N (the 16-bit wrap is a stated side condition).
    Ghost state: the log of completed operations, the number of successful anchor CASes, the
    epoch of every address (bumped by allocate and by deallocate) and the flag [aba]: a link
-   CAS succeeded although its target was freed/re-allocated since the expected value was read.
-   Executable definitions only; proofs are in Proofs/DequeProofs.v. *)
+   CAS succeeded although its target was freed/re-allocated since the expected value was read
+   (the F15 event; Props: C17_deque_aba_never — it stays false).
+   Executable definitions only; proofs are in Proofs/Deque*.v. *)
 From Coq Require Import List NArith Bool.
 From Pika Require Import Base.Conc Model.IndexQueue Model.DequeSpec.
 Import ListNotations.
@@ -191,11 +197,14 @@ Definition dq_tstep (_ : unit) (t : nat) (g : dq_shared) (l : dq_local) : dq_sha
       end
   | DCrashed => (g, l)
   | PInit s v n =>
-      (set_heap g (hupd (heap g) n {| nleft := null_link; nright := null_link; ndata := v |}),
+      (set_heap g (hupd (heap g) n {| nleft := {| lptr := 0; ltag := ltag (nleft (heap g n)) + 1 |};
+                                      nright := {| lptr := 0; ltag := ltag (nright (heap g n)) + 1 |};
+                                      ndata := v |}),
        goto l (PLoad s n))
   | PLoad s n => push_load g l s n
   | PStore s n lrs =>
-      (set_heap g (hupd (heap g) n (set_inward s (heap g n) {| lptr := aend s lrs; ltag := 0 |})),
+      (set_heap g (hupd (heap g) n (set_inward s (heap g n)
+                                      {| lptr := aend s lrs; ltag := ltag (inward s (heap g n)) + 1 |})),
        goto l (PCas s n lrs false))
   | PCas s n lrs emp =>
       if anchor_eqb (anc g) lrs then
